@@ -23,6 +23,10 @@
 (*   LimitPollOverwrites TRUE: the limit poll stores its verdict into the  *)
 (*                 flag (erasing a stop that landed after the flag was     *)
 (*                 read); FALSE (as written): it only ever sets the flag   *)
+(*   JoinThread    TRUE: the search thread is joined before the next go    *)
+(*                 and when the loop is left (repaired); FALSE: detached,  *)
+(*                 quit / end of input while searching leaves the thread   *)
+(*                 running on destroyed objects (ExitSafe)                 *)
 (*   RunningGuard  TRUE: stop is forwarded only while a flag says a search *)
 (*                 is running; the flag is cleared by the EXITING thread   *)
 (*                 of a search, i.e. possibly after the next go was        *)
@@ -37,6 +41,9 @@ CONSTANTS MaxDepth,       \* size bound of the per-depth array (previous_moves h
           SearchMoves,    \* set of possible searchmoves restrictions (subsets of RootMoves; {} = none)
           MaxGos,         \* go commands per behaviour (bounds the model)
           ResetInGo, BestFallback, ClampDepth, TTMoveGuard, PrunedValue, LimitPollOverwrites,
+          JoinThread,     \* TRUE (repaired): the search thread is joined before the next go and before the loop is left;
+                          \* FALSE (pinned commit): it is detached
+          WithQuit,       \* whether quit is part of the explored sessions (bounds the model)
           RunningGuard    \* TRUE: a variant with a "search is running" flag set by go, cleared by the exiting search thread and
                           \* consulted by stop (FALSE as written: stop is always forwarded to the current Search object)
 
@@ -62,58 +69,66 @@ VARIABLES
   gos,        \* number of go commands sent
   epi,        \* a search thread has written its bestmove line and still has its epilogue to run (return from go(), thread exit);
               \* the GUI may already send the next go
-  running     \* the "a search is running" flag of the RunningGuard variant (unused as written)
-vars == <<rpc, spc, stop, best, depth, limit, allowed, nodes, ttmove, out, stopSent, afterStop, pendReady, prevIdx, timeUp, gos, epi, running>>
+  running,    \* the "a search is running" flag of the RunningGuard variant (unused as written)
+  exited      \* the command loop has ended (quit / end of input): the Uci object and everything the search thread uses is gone
+vars == <<rpc, spc, stop, best, depth, limit, allowed, nodes, ttmove, out, stopSent, afterStop, pendReady, prevIdx, timeUp, gos, epi, running, exited>>
 
 Init == /\ rpc = "idle" /\ spc = "none" /\ stop = FALSE /\ best = NoMove /\ depth = 0 /\ limit = 0 /\ allowed = RootMoves
         /\ nodes = 0 /\ ttmove \in RootMoves \cup {NoMove, Junk} /\ out = <<>> /\ stopSent = FALSE /\ afterStop = 0
-        /\ pendReady = 0 /\ prevIdx = 0 /\ timeUp = FALSE /\ gos = 0 /\ epi = FALSE /\ running = FALSE
+        /\ pendReady = 0 /\ prevIdx = 0 /\ timeUp = FALSE /\ gos = 0 /\ epi = FALSE /\ running = FALSE /\ exited = FALSE
 
 \* ------------------------------------------------------------------ reader thread (uci.cpp)
 \* go: parse limits, construct the Search object (constructor sets the flag to FALSE), spawn and detach the thread
 Go(dl, sm) ==
   /\ rpc = "idle" /\ spc \in {"none", "done"} /\ gos < MaxGos /\ gos' = gos + 1
+  /\ (JoinThread => ~epi)              \* go_command ends and joins the previous search thread first (repaired)
   /\ rpc' = "busy" /\ spc' = "spawned" /\ stop' = FALSE /\ best' = NoMove /\ depth' = 0 /\ nodes' = 0
   /\ limit' = (IF dl = 0 THEN MaxDepth ELSE IF ClampDepth /\ dl > MaxDepth THEN MaxDepth ELSE dl)
   /\ allowed' = (IF sm = {} THEN RootMoves ELSE sm)
   /\ stopSent' = FALSE /\ afterStop' = 0 /\ timeUp' = FALSE /\ prevIdx' = 0
   /\ running' = (IF RunningGuard THEN TRUE ELSE running)
-  /\ UNCHANGED <<ttmove, out, pendReady, epi>>
+  /\ UNCHANGED <<ttmove, out, pendReady, epi, exited>>
 \* stop: as written `if (search) search->stop()`; the RunningGuard variant forwards it only while its flag says a search is running
 Stop == /\ rpc = "busy" /\ ~stopSent /\ stopSent' = TRUE
         /\ stop' = (IF RunningGuard /\ ~running THEN stop ELSE TRUE)
-        /\ UNCHANGED <<rpc, spc, best, depth, limit, allowed, nodes, ttmove, out, afterStop, pendReady, prevIdx, timeUp, gos, epi, running>>
+        /\ UNCHANGED <<rpc, spc, best, depth, limit, allowed, nodes, ttmove, out, afterStop, pendReady, prevIdx, timeUp, gos, epi, running, exited>>
 IsReady == /\ pendReady = 0 /\ pendReady' = 1
-           /\ UNCHANGED <<rpc, spc, stop, best, depth, limit, allowed, nodes, ttmove, out, stopSent, afterStop, prevIdx, timeUp, gos, epi, running>>
+           /\ UNCHANGED <<rpc, spc, stop, best, depth, limit, allowed, nodes, ttmove, out, stopSent, afterStop, prevIdx, timeUp, gos, epi, running, exited>>
 \* the reader answers isready itself, whatever the searcher is doing (output is serialised by the sync_cout lock)
 ReadyOk == /\ pendReady = 1 /\ pendReady' = 2         \* 2 = answered (one isready per behaviour bounds the model)
-           /\ UNCHANGED <<rpc, spc, stop, best, depth, limit, allowed, nodes, ttmove, out, stopSent, afterStop, prevIdx, timeUp, gos, epi, running>>
+           /\ UNCHANGED <<rpc, spc, stop, best, depth, limit, allowed, nodes, ttmove, out, stopSent, afterStop, prevIdx, timeUp, gos, epi, running, exited>>
+\* quit (or the end of the input) may arrive at any time, also while a search is running: the search is told to stop; the repaired
+\* reader then waits for the search thread to end before the loop is left, the pinned one leaves at once (the thread was detached)
+Quit == /\ rpc \in {"idle", "busy"} /\ rpc' = "quitting" /\ stop' = (IF spc = "none" THEN stop ELSE TRUE)
+        /\ UNCHANGED <<spc, best, depth, limit, allowed, nodes, ttmove, out, stopSent, afterStop, pendReady, prevIdx, timeUp, gos, epi, running, exited>>
+Exit == /\ rpc = "quitting" /\ ~exited /\ (JoinThread => (spc \in {"none", "done"} /\ ~epi)) /\ exited' = TRUE
+        /\ UNCHANGED <<rpc, spc, stop, best, depth, limit, allowed, nodes, ttmove, out, stopSent, afterStop, pendReady, prevIdx, timeUp, gos, epi, running>>
 \* the reader sees the bestmove line and may send the next go
 SeeBest == /\ rpc = "busy" /\ spc = "done" /\ rpc' = "idle"
-           /\ UNCHANGED <<spc, stop, best, depth, limit, allowed, nodes, ttmove, out, stopSent, afterStop, pendReady, prevIdx, timeUp, gos, epi, running>>
+           /\ UNCHANGED <<spc, stop, best, depth, limit, allowed, nodes, ttmove, out, stopSent, afterStop, pendReady, prevIdx, timeUp, gos, epi, running, exited>>
 
 \* ------------------------------------------------------------------ environment
 TimeUp == /\ rpc = "busy" /\ ~timeUp /\ timeUp' = TRUE
-          /\ UNCHANGED <<rpc, spc, stop, best, depth, limit, allowed, nodes, ttmove, out, stopSent, afterStop, pendReady, prevIdx, gos, epi, running>>
+          /\ UNCHANGED <<rpc, spc, stop, best, depth, limit, allowed, nodes, ttmove, out, stopSent, afterStop, pendReady, prevIdx, gos, epi, running, exited>>
 Poison == /\ spc \in {"none", "done"} /\ \E m \in RootMoves \cup {NoMove, Junk} : ttmove' = m
-          /\ UNCHANGED <<rpc, spc, stop, best, depth, limit, allowed, nodes, out, stopSent, afterStop, pendReady, prevIdx, timeUp, gos, epi, running>>
+          /\ UNCHANGED <<rpc, spc, stop, best, depth, limit, allowed, nodes, out, stopSent, afterStop, pendReady, prevIdx, timeUp, gos, epi, running, exited>>
 
 \* ------------------------------------------------------------------ search thread (search.cpp)
 Step(from, to) == spc = from /\ spc' = to
-ThreadStart == Step("spawned", "go_entry") /\ UNCHANGED <<rpc, stop, best, depth, limit, allowed, nodes, ttmove, out, stopSent, afterStop, pendReady, prevIdx, timeUp, gos, epi, running>>
-InitSearch == Step("go_entry", "after_init") /\ UNCHANGED <<rpc, stop, best, depth, limit, allowed, nodes, ttmove, out, stopSent, afterStop, pendReady, prevIdx, timeUp, gos, epi, running>>
+ThreadStart == Step("spawned", "go_entry") /\ UNCHANGED <<rpc, stop, best, depth, limit, allowed, nodes, ttmove, out, stopSent, afterStop, pendReady, prevIdx, timeUp, gos, epi, running, exited>>
+InitSearch == Step("go_entry", "after_init") /\ UNCHANGED <<rpc, stop, best, depth, limit, allowed, nodes, ttmove, out, stopSent, afterStop, pendReady, prevIdx, timeUp, gos, epi, running, exited>>
 ResetStop == /\ Step("after_init", "loop_head")
              /\ stop' = (IF ResetInGo THEN FALSE ELSE stop)
              /\ best' = (IF BestFallback THEN CHOOSE m \in allowed : TRUE ELSE NoMove)     \* iter_search: _best_move := ...
-             /\ UNCHANGED <<rpc, depth, limit, allowed, nodes, ttmove, out, stopSent, afterStop, pendReady, prevIdx, timeUp, gos, epi, running>>
+             /\ UNCHANGED <<rpc, depth, limit, allowed, nodes, ttmove, out, stopSent, afterStop, pendReady, prevIdx, timeUp, gos, epi, running, exited>>
 LoopHead == /\ spc = "loop_head"
-            /\ IF stop THEN spc' = "print_best" /\ UNCHANGED <<depth, nodes, gos, epi, running>>
+            /\ IF stop THEN spc' = "print_best" /\ UNCHANGED <<depth, nodes, gos, epi, running, exited>>
                ELSE spc' = "searching" /\ depth' = depth + 1 /\ nodes' = 0
-            /\ UNCHANGED <<rpc, stop, best, limit, allowed, ttmove, out, stopSent, afterStop, pendReady, prevIdx, timeUp, gos, epi, running>>
+            /\ UNCHANGED <<rpc, stop, best, limit, allowed, ttmove, out, stopSent, afterStop, pendReady, prevIdx, timeUp, gos, epi, running, exited>>
 \* one node visit is two steps of the code, `if (stop_search || check_limits())`: first the flag is read ...
 PollFlag == /\ spc = "searching" /\ nodes < NodesPerIter /\ ~stop
             /\ spc' = "poll_limits"
-            /\ UNCHANGED <<rpc, stop, best, depth, limit, allowed, nodes, ttmove, out, stopSent, afterStop, pendReady, prevIdx, timeUp, gos, epi, running>>
+            /\ UNCHANGED <<rpc, stop, best, depth, limit, allowed, nodes, ttmove, out, stopSent, afterStop, pendReady, prevIdx, timeUp, gos, epi, running, exited>>
 \* ... then the limits are polled; a stop may land between the two.  As written the poll only ever SETS the flag;
 \* LimitPollOverwrites = TRUE models a poll that stores its verdict (and so can erase a stop that has just arrived)
 PollLimits == /\ spc = "poll_limits"
@@ -121,7 +136,7 @@ PollLimits == /\ spc = "poll_limits"
               /\ nodes' = nodes + 1
               /\ stop' = (IF LimitPollOverwrites THEN timeUp ELSE (stop \/ timeUp))
               /\ afterStop' = afterStop + (IF stopSent /\ ~stop' THEN 1 ELSE 0)
-              /\ UNCHANGED <<rpc, best, depth, limit, allowed, ttmove, out, stopSent, pendReady, prevIdx, timeUp, gos, epi, running>>
+              /\ UNCHANGED <<rpc, best, depth, limit, allowed, ttmove, out, stopSent, pendReady, prevIdx, timeUp, gos, epi, running, exited>>
 \* the iteration ends (normally, or unwinding because the flag is set); result class chosen nondeterministically
 IterEnd(kind) ==
   /\ spc = "searching" /\ (nodes = NodesPerIter \/ stop)
@@ -130,24 +145,24 @@ IterEnd(kind) ==
                    ELSE (IF ttmove # NoMove THEN ttmove ELSE CHOOSE m \in allowed : TRUE)
      IN IF ~stop
         THEN /\ out' = Append(out, <<"info", depth, kind>>) /\ best' = pvmove
-        ELSE UNCHANGED <<out, best, gos, epi, running>>
+        ELSE UNCHANGED <<out, best, gos, epi, running, exited>>
   /\ prevIdx' = (IF depth > prevIdx THEN depth ELSE prevIdx)            \* previous_moves[_current_depth] = _best_move
   /\ spc' = (IF (kind = "mate" /\ ~stop) \/ depth >= limit \/ timeUp THEN "print_best" ELSE "loop_head")
-  /\ UNCHANGED <<rpc, stop, depth, limit, allowed, nodes, ttmove, stopSent, afterStop, pendReady, timeUp, gos, epi, running>>
+  /\ UNCHANGED <<rpc, stop, depth, limit, allowed, nodes, ttmove, stopSent, afterStop, pendReady, timeUp, gos, epi, running, exited>>
 PrintBest == /\ Step("print_best", "done") /\ out' = Append(out, <<"bestmove", best>>) /\ epi' = TRUE
-             /\ UNCHANGED <<rpc, stop, best, depth, limit, allowed, nodes, ttmove, stopSent, afterStop, pendReady, prevIdx, timeUp, gos, running>>
+             /\ UNCHANGED <<rpc, stop, best, depth, limit, allowed, nodes, ttmove, stopSent, afterStop, pendReady, prevIdx, timeUp, gos, running, exited>>
 \* the epilogue of a search thread whose bestmove line is out: it returns from go() and exits.  It is a step of its own because the
 \* GUI reacts to the bestmove line, not to the thread's end: the next go (and its stop) may be handled before this step.  As written
 \* the epilogue touches no shared state; the RunningGuard variant clears its flag here
 ThreadExit == /\ epi /\ epi' = FALSE /\ running' = (IF RunningGuard THEN FALSE ELSE running)
-              /\ UNCHANGED <<rpc, spc, stop, best, depth, limit, allowed, nodes, ttmove, out, stopSent, afterStop, pendReady, prevIdx, timeUp, gos>>
+              /\ UNCHANGED <<rpc, spc, stop, best, depth, limit, allowed, nodes, ttmove, out, stopSent, afterStop, pendReady, prevIdx, timeUp, gos, exited>>
 
 ResultKinds == {"cp", "mate"} \cup (IF PrunedValue THEN {} ELSE {"mate0"})
 SNext == ThreadStart \/ InitSearch \/ ResetStop \/ LoopHead \/ PollFlag \/ PollLimits \/ (\E k \in ResultKinds : IterEnd(k)) \/ PrintBest \/ ThreadExit
-RNext == (\E dl \in DepthLimits, sm \in SearchMoves : Go(dl, sm)) \/ Stop \/ IsReady \/ ReadyOk \/ SeeBest
+RNext == (\E dl \in DepthLimits, sm \in SearchMoves : Go(dl, sm)) \/ Stop \/ IsReady \/ ReadyOk \/ SeeBest \/ (WithQuit /\ (Quit \/ Exit))
 Next == SNext \/ RNext \/ TimeUp \/ Poison
 Spec == Init /\ [][Next]_vars
-FairSpec == Spec /\ WF_vars(SNext) /\ WF_vars(ReadyOk)
+FairSpec == Spec /\ WF_vars(SNext) /\ WF_vars(ReadyOk) /\ WF_vars(Exit)
 
 \* ------------------------------------------------------------------ properties
 Bests == {i \in 1..Len(out) : out[i][1] = "bestmove"}
@@ -176,6 +191,10 @@ StopPrompt == afterStop = 0
 StopAnswered == stopSent ~> (spc = "done")
 GoAnswered == (rpc = "busy") ~> (spc = "done")
 ReadyAnswered == (pendReady = 1) ~> (pendReady = 2)
+\* C10: when the loop has been left nothing of the search is still running (the thread works on objects that are gone by then)
+ExitSafe == exited => (spc \in {"none", "done"} /\ ~epi)
+\* quit is honoured (under FairSpec)
+QuitAnswered == (rpc = "quitting") ~> exited
 \* a lost stop: the flag is FALSE although a stop was delivered and the search is still going
 StopNeverLost == (stopSent /\ spc \in {"loop_head", "searching"} /\ ~timeUp) => stop
 =============================================================================
